@@ -91,6 +91,42 @@ func c15RunSerial(pred, subj c04Session) explore.Result {
 	return res
 }
 
+// c15RunManyBefore: n connections that never get through their start-up (all of one kind, each served completely and
+// gone) precede the subject: its transcript and callbacks are those of the subject served alone on a fresh server.
+func c15RunManyBefore(pred c04Session, n int, subj c04Session) explore.Result {
+	var res explore.Result
+	res.Outcome = "serial"
+	res.Key = fmt.Sprint(n, " x ", pred.Name, " => ", subj.Name)
+	srv0, w0, err := c15NewServer(subj.Auth)
+	if err != nil {
+		res.Engine = err.Error()
+		return res
+	}
+	at, ae, ast := c15Serve(srv0, w0, subj)
+	srv0.Stop()
+	srv, w, err := c15NewServer(subj.Auth)
+	if err != nil {
+		res.Engine = err.Error()
+		return res
+	}
+	defer srv.Stop()
+	for i := 0; i < n; i++ {
+		if _, _, st := c15Serve(srv, w, pred); st != "closed" {
+			res.Fail("transcript-differs-from-alone", fmt.Sprintf("earlier connection %d of %d (%s) is %s after its input ended", i+1, n, pred.Name, st))
+			return res
+		}
+	}
+	t, e, st := c15Serve(srv, w, subj)
+	if !sameStrings(t, at) || st != ast {
+		res.Fail("transcript-differs-from-alone", fmt.Sprintf("session %q served after %d earlier connections (%q each, all gone) on the same server received\n  %v (%s)\nbut served alone on a fresh server it receives\n  %v (%s)", subj.Name, n, pred.Name, clipList(t), st, clipList(at), ast))
+	}
+	if !sameStrings(e, ae) {
+		res.Fail("callbacks-differ-from-alone", fmt.Sprintf("session %q after %d x %q: callbacks\n  %v\nalone:\n  %v", subj.Name, n, pred.Name, clipList(e), clipList(ae)))
+	}
+	res.Trans = []string{"fresh server|many predecessors|served subject"}
+	return res
+}
+
 // c15Stepwise serves sessions on ONE server, message by message, in the given order of turns: turn k delivers the
 // next message of connection order[k] and waits until the whole server is quiescent again. Returns per connection
 // its canonical transcript, the callbacks that ran during its turns and its final status.
@@ -276,6 +312,47 @@ func init() {
 									},
 									Run: func() explore.Result { return c15RunMerged(a, b, i, j) }})
 							}
+						}
+					}
+				}
+			}
+			// many earlier connections that never got through their start-up, then a regular one
+			{
+				st := pgproto.Startup("user", "u")
+				subjects := []c04Session{
+					{Name: "plain / query", Segs: [][]byte{st, pgproto.Query(progRows)}},
+					{Name: "auth / good password, query", Auth: true, Segs: [][]byte{st, pgproto.Password("good"), pgproto.Query(progRows)}},
+				}
+				preds := []c04Session{
+					{Name: "connects and leaves without a byte"},
+					{Name: "two bytes of garbage", Segs: [][]byte{{0x16, 0x03}}},
+					{Name: "truncated start-up packet", Segs: [][]byte{st[:len(st)-3]}},
+					{Name: "start-up packet whose parameter list lacks its terminator", Segs: [][]byte{pgproto.Cat(pgproto.Be32(uint32(8+5)), pgproto.Be32(196608), []byte("user\x00"))}},
+					{Name: "SSLRequest, then gone", Segs: [][]byte{pgproto.SSLRequest()}},
+					{Name: "CancelRequest", Segs: [][]byte{pgproto.Cat(pgproto.Be32(16), pgproto.Be32(80877102), pgproto.Be32(1), pgproto.Be32(2))}},
+					{Name: "start-up, then gone before the password", Auth: true, Segs: [][]byte{st}},
+					{Name: "rejected password", Auth: true, Segs: [][]byte{st, pgproto.Password("bad")}},
+				}
+				counts := []int{3, 8, 9, 10, 16, 17, 31, 32, 33, 63, 64, 65, 100, 127, 128, 129, 255, 256, 257, 300}
+				if tier == "thorough" {
+					counts = nil
+					for n := 2; n <= 700; n++ {
+						counts = append(counts, n)
+					}
+					counts = append(counts, 1023, 1024, 1025, 2049, 4097)
+				}
+				for _, subj := range subjects {
+					for _, pred := range preds {
+						if pred.Auth && !subj.Auth {
+							continue
+						}
+						for _, n := range counts {
+							subj, pred, n := subj, pred, n
+							emit(explore.Case{Family: "serial-pairs", Size: 3,
+								Desc: func() any {
+									return map[string]any{"earlier_connections": n, "each": pred.Name, "subject_connection": subj.Name}
+								},
+								Run: func() explore.Result { return c15RunManyBefore(pred, n, subj) }})
 						}
 					}
 				}
